@@ -3,7 +3,7 @@ use crate::document::{as_pos_range, DocumentRequest};
 use color_eyre::eyre::Result;
 use lsp_types::{Hover, HoverContents, HoverParams, MarkupContent, MarkupKind, Range as PosRange};
 use spl_frontend::{
-    table::{Entry, GlobalEntry, LookupTable, SymbolTable, TableEntry},
+    table::{Entry, GlobalEntry, SymbolTable, TableEntry},
     ToRange,
 };
 use tokio::sync::mpsc::Sender;
@@ -37,11 +37,7 @@ pub async fn hover(doctx: Sender<DocumentRequest>, params: HoverParams) -> Resul
                         }
                     }
                     GlobalEntry::Procedure(p) => {
-                        let lookup_table = LookupTable {
-                            global_table: Some(&doc.table),
-                            local_table: Some(&p.local_table),
-                        };
-                        if let Some(entry) = lookup_table.lookup(&ident.value) {
+                        if let Some(entry) = super::lookup_ident(&doc, p, ident) {
                             return Ok(Some(create_hover(
                                 &entry,
                                 as_pos_range(&ident.to_range(), &doc.text),
